@@ -5,6 +5,9 @@ HERE = os.path.dirname(os.path.dirname(os.path.abspath(__file__)))
 ALL = ["C%02d" % i for i in range(1, 21)]
 
 CHECKS = {
+ "C15": dict(cat="exploration", tech="trace-specification checker (rules R1-R7) over (virtual time, tick, .timerc) events of the real .timer/.timerc running on a real asyncio loop with a scripted virtual clock and dispatch latencies",
+   text="Generated callback scripts (duration relative to the interval, return value, actions cancel-self / cancel-other / redefine / raise) x intervals {0,1,2,5} x dyadic and non-dyadic start times x scripted dispatch latencies (on the deadline, inside the clock resolution before it, later by less/more than an interval) x external cancellations drive the real timer code; the recorded trace is checked for early ticks, double ticks per boundary, overlap, ticks after stop, .timerc return values, stale callback definitions and bounded progress. Liveness is restated as bounded progress up to a virtual horizon.",
+   note="asyncio SelectorEventLoop dispatch semantics; virtual clock resolution equals the monotonic clock's; behaviour after a raising callback is only checked for R1-R4.", ref="DESIGN.md §4 C15"),
  "C09": dict(cat="exploration", tech="call-log monitor on instrumented Python callables (exactly-once, positional arguments, result) + store/read-back oracle + wrapper-vs-Klong-text differential over redefinition/deletion histories",
    text="Values of the universe stored through klong[name]=v are read back through klong[name], the program and an assignment; instrumented Python callables of arity 0..3 (with/without klong) are applied in every call form (direct, via variable, @, each, each-2, over, each-pair, every projection pattern of arity 2 and 3, two-step fill) and their call log is compared with the expected call sequence; Klong functions of arity 0..3 are called through klong[name](*args) along generated wrap/redefine/delete/call histories (including wrong argument counts) and compared with the Klong call text. Held on the histories observed.",
    note="parameter names restricted to x,y,z prefix (+klong); a wrapper call while its name is deleted is executed but not judged.", ref="DESIGN.md §4 C09"),
